@@ -230,7 +230,7 @@ pub mod future_side {
 //@rule X6.world 1 s/\b$send\(\)/$send.call(Tracked(w))/
 //@end
 
-//@extract id=ShellStream::poll_next file=crux_core/src/command/context.rs within="impl<T: Unpin + Send> Stream for ShellStream<T>" item="fn poll_next" props=C01+C02+C07
+//@extract id=ShellStream::poll_next file=crux_core/src/command/context.rs within="impl<T: Unpin + Send> Stream for ShellStream<T>" item="fn poll_next" props=C01+C02+C05+C07
 //@expect fn poll_next(mut self: Pin<&mut Self>, cx: &mut Context<'_>) -> Poll<Option<Self::Item>>
 //@sig pub fn poll_next(&mut self, Tracked(w): Tracked<&mut XW>, cx: &mut Context<'_>) -> (r: Poll<Option<T>>)
 //@contract
@@ -241,10 +241,10 @@ pub mod future_side {
             ensures
                 *final(self) is Sent,
                 *old(self) is ReadyToSend ==> r is Pending && final(w).sent == old(w).sent + 1, // [C01+C02/ShellStream::poll_next/the-first-poll-hands-the-request-to-the-shell-exactly-once-and-waits]
-                *old(self) is ReadyToSend ==> final(w).rx_waker == Some(old(cx).waker_id()), // [C02/ShellStream::poll_next/the-consumers-waker-is-in-place-before-the-request-can-be-answered]
+                *old(self) is ReadyToSend ==> final(w).rx_waker == Some(old(cx).waker_id()), // [C02+C05/ShellStream::poll_next/the-consumers-waker-is-in-place-before-the-request-can-be-answered]
                 *old(self) is Sent ==> final(w).sent == old(w).sent, // [C01+C02/ShellStream::poll_next/the-request-is-never-sent-twice]
                 *old(self) is Sent && old(w).pending.len() > 0 ==> (r matches Poll::Ready(Some(v)) && val_id(v) == old(w).pending[0] && final(w).pending == old(w).pending.drop_first()), // [C02/ShellStream::poll_next/the-oldest-undelivered-value-is-yielded-unchanged-and-removed]
-                *old(self) is Sent && old(w).pending.len() == 0 && !old(w).closed ==> r is Pending && final(w).rx_waker == Some(old(cx).waker_id()), // [C02/ShellStream::poll_next/pending-only-with-the-consumers-waker-stored]
+                *old(self) is Sent && old(w).pending.len() == 0 && !old(w).closed ==> r is Pending && final(w).rx_waker == Some(old(cx).waker_id()), // [C02+C05/ShellStream::poll_next/pending-only-with-the-consumers-waker-stored]
                 *old(self) is Sent && old(w).pending.len() == 0 && old(w).closed ==> r == Poll::Ready(None::<T>) && *final(w) == *old(w), // [C07/ShellStream::poll_next/a-closed-channel-ends-the-stream-and-stores-no-waker]
 //@rule X12.pin-erasure * s/pin!\((\w+)\)\.poll_next\(cx\)/\1.poll_next(Tracked(w), cx)/
 //@rule X9.assert 1 s#assert!\(matches!\((\w+), Poll::Pending\)\);#assert(matches!(\1, Poll::Pending)); // [C02/ShellStream::poll_next/nothing-can-have-arrived-before-the-request-was-sent]#
